@@ -346,7 +346,7 @@ def load_known():
     if os.path.exists(p):
         for l in open(p):
             l = l.strip()
-            if l and not l.startswith('#'):
+            if l and not l.startswith('#') and not l.startswith('fixed:'):     # `fixed:` lines suppress nothing
                 out.append(json.loads(l))
     return out
 
